@@ -67,7 +67,7 @@ Theorem C07_whole_run : forall c pkts ff s shown e,
   forall m, In m (k_errors s) ->
   exists q, In q (map (mk_cdp (rc_scan c)) (selected (rc_scan c) 0 pkts)) /\ start_of q (m_off m) /\
             m_off m < N.of_nat (length (serialize pkts)).
-Proof. exact (fun c pkts ff s shown e H1 H2 H3 H4 H5 => c07_whole_run c pkts (eq_refl : Gen.Facts.cdp_offset_sampled_after = true) H1 H2 H3 H4 H5 ff s shown e). Qed.
+Proof. exact (fun c pkts ff s shown e H1 H2 H3 H4 H5 => c07_whole_run c pkts (eq_refl : Gen.Facts.cdp_offset_sampled_after = true) H1 H2 H3 (or_intror H4) H5 ff s shown e). Qed.
 
 Print Assumptions C07_packet.
 Print Assumptions C07_quoted_bytes.
